@@ -34,6 +34,10 @@ type StaleLoad struct {
 	// such a load, the rejection must not have changed anything; if it accepts it, nothing is asserted until the
 	// next load
 	Dup bool `json:"dup,omitempty"`
+	// NoEnum: after this load the map is only queried with Get (no Item enumeration, nothing handed out)
+	NoEnum bool `json:"no_enum,omitempty"`
+	// Print: the map is printed (String / %v) before it is queried
+	Print bool `json:"print,omitempty"`
 }
 
 type StaleCase struct {
@@ -62,6 +66,7 @@ func checkStaleBody(c StaleCase, cv *cov) *evid.Violation {
 	modelI := map[string]int{}
 	usedStale, usedOld, sawHuge, sawDupRejected, unknown := false, false, false, false, false
 	handedAt := []int{} // load index at which handed[i] was obtained
+	enum := true
 	verify := func(when string) *evid.Violation {
 		if c.Str2Str {
 			if s2.Len() != len(modelS) {
@@ -88,7 +93,7 @@ func checkStaleBody(c StaleCase, cv *cov) *evid.Violation {
 			}
 		}
 		seen := map[string]bool{}
-		for i, n := 0, sm.Len(); i < n; i++ {
+		for i, n := 0, sm.Len(); enum && i < n; i++ {
 			k, val := sm.Item(i)
 			if want, ok := modelI[k]; !ok || want != val || seen[k] {
 				return evid.Failf("%s: Item(%d) = (%q,%d) which is not one of the loaded pairs (or is enumerated twice)", when, i, clip(k), val)
@@ -213,10 +218,21 @@ func checkStaleBody(c StaleCase, cv *cov) *evid.Violation {
 		}
 		modelS, modelI = nmS, nmI
 		unknown = false
+		enum = !ld.NoEnum
+		if ld.Print {
+			if c.Str2Str {
+				_ = fmt.Sprintf("%v", s2)
+			} else {
+				_ = sm.String() + fmt.Sprintf("%v %s", sm, sm)
+			}
+		}
 		if v := verify(fmt.Sprintf("after load %d of %d keys%s", li, len(kk), how)); v != nil {
 			return v
 		}
 		// collect what this load hands out (views)
+		if ld.NoEnum {
+			continue
+		}
 		if c.Str2Str {
 			for k := range modelS {
 				if got, ok := s2.Get(k); ok && len(got) > 0 {
@@ -271,6 +287,8 @@ func genStaleCase(t *rapid.T) StaleCase {
 				ld.HugeVal = rapid.IntRange(0, 9).Draw(t, "hugeVal") == 0
 			}
 			ld.Dup = rapid.IntRange(0, 9).Draw(t, "dup") == 0
+			ld.NoEnum = rapid.IntRange(0, 2).Draw(t, "noEnum") == 0
+			ld.Print = rapid.IntRange(0, 3).Draw(t, "print") == 0
 		}
 		c.Loads = append(c.Loads, ld)
 	}
@@ -278,7 +296,7 @@ func genStaleCase(t *rapid.T) StaleCase {
 }
 
 func TestC07_Stale(t *testing.T) {
-	rec := evid.New("C07", "c07_stale", "rapid: 2..7 loads on one StrMap[int] or Str2Str of 0..40 fresh keys (keys of 4..100 bytes, values of 0..213 bytes) in which up to 6 keys and (Str2Str) up to 4 values are zero-copy strings the instance handed out after ANY earlier load (Item keys, Get values; up to 400 are kept), loaded with the content they have at the time of the call; (Str2Str) one load in ten is rejected because a value is longer than MaxUint32 (never-touched mapping; rejected by error or by the value store's documented panic) and nothing may have changed; one load in ten passes its first key twice (if that is rejected, nothing may have changed; if it is accepted, nothing is asserted until the next load); after every load of a StrMap, sub-strings cut out of the keys Item returned are probed; oracle = Go map of copies made before the load; non-trivial = a handed-out string was fed back or a load was rejected")
+	rec := evid.New("C07", "c07_stale", "rapid: 2..7 loads on one StrMap[int] or Str2Str of 0..40 fresh keys (keys of 4..100 bytes, values of 0..213 bytes) in which up to 6 keys and (Str2Str) up to 4 values are zero-copy strings the instance handed out after ANY earlier load (Item keys, Get values; up to 400 are kept), loaded with the content they have at the time of the call; (Str2Str) one load in ten is rejected because a value is longer than MaxUint32 (never-touched mapping; rejected by error or by the value store's documented panic) and nothing may have changed; one load in ten passes its first key twice (if that is rejected, nothing may have changed; if it is accepted, nothing is asserted until the next load); after most loads of a StrMap the pairs are enumerated with Item and sub-strings cut out of the returned keys are probed (after one load in three the map is only queried with Get and hands nothing out); one load in four is followed by printing the map before it is queried; oracle = Go map of copies made before the load; non-trivial = a handed-out string was fed back or a load was rejected")
 	defer rec.Flush()
 	runRapid(t, rec, "c07_stale", evid.Pick(4000, 30000), genStaleCase, checkStale)
 }
